@@ -942,8 +942,27 @@ func c18R5(c *Ctx) {
 					return false
 				}
 				ia, ok := u.X.(*ssa.IndexAddr)
-				if !ok || ia.X != ssa.Value(th.Params[0]) {
+				if !ok {
 					return false
+				}
+				if ia.X != ssa.Value(th.Params[0]) {
+					// the same list handed on to a helper (`bindConstantsOperandTypes(inputType)`)
+					pp, isP := ia.X.(*ssa.Parameter)
+					if !isP {
+						return false
+					}
+					bound := false
+					if arg, ok := paramBinding[pp]; ok && arg == ssa.Value(th.Params[0]) {
+						bound = true
+					}
+					for _, arg := range paramSites[pp] {
+						if arg == ssa.Value(th.Params[0]) {
+							bound = true
+						}
+					}
+					if !bound {
+						return false
+					}
 				}
 				k, isC := constInt(ia.Index)
 				return isC && k == idx
@@ -988,6 +1007,32 @@ func c18R5(c *Ctx) {
 					return
 				}
 				t = call.Call.Args[pi]
+			}
+			// one result of an operand-selecting helper: the value that helper returns in that position
+			if ex, ok := t.(*ssa.Extract); ok {
+				if hc, ok := ex.Tuple.(*ssa.Call); ok {
+					if h := hc.Common().StaticCallee(); h != nil && isRepoFn(h) && len(h.Blocks) > 0 {
+						var only ssa.Value
+						multiple := false
+						eachInstr(h, func(r2 instrRef) {
+							ret, ok := r2.I.(*ssa.Return)
+							if !ok {
+								return
+							}
+							rs := retResults(ret)
+							if ex.Index >= len(rs) || isNilConst(rs[ex.Index]) {
+								return
+							}
+							if only != nil && only != rs[ex.Index] {
+								multiple = true
+							}
+							only = rs[ex.Index]
+						})
+						if only != nil && !multiple {
+							t = only
+						}
+					}
+				}
 			}
 			switch k {
 			case "item":
